@@ -102,6 +102,10 @@ func c17Seeds(scheme string, lvl int) []string {
 		seeds = append(seeds,
 			"vers:"+scheme+"/>="+p1[1]+"|<="+p1[4]+"|!="+p1[2],
 			"vers:"+scheme+"/="+p0[2],
+			"vers:"+scheme+"/>"+p1[0]+"|<"+p1[2]+"|>="+p1[4]+"|<="+p1[6],
+			"vers:"+scheme+"/<="+p0[1]+"|!="+p0[3]+"|>"+p0[5],
+			"vers:"+scheme+"/ >= "+p0[1]+" | < "+p0[3]+" ",
+			"vers:"+scheme+"/="+p1[2]+"|="+p1[5]+"|!="+p1[7],
 		)
 	}
 	return seeds
@@ -334,7 +338,7 @@ func init() {
 				"distinct_nontrivial":           r.Counters["nontrivial"],
 			}
 		},
-		Rule:        "validation: for 3 (quick) / 5 (thorough) valid seed ranges per scheme, EVERY single-point corruption - delete at each position, replace by and insert each character of {a z A 0 9 : / | * = < > ! . - SP TAB NUL e-acute ~ DEL 0x1f 0x80} at each position - plus scheme case changes, operator manglings and prefix damage, each with 4 probes; a reference classifier (Appendix A.9) decides which results must be (false, error). routing: for each scheme every (comparator, bound, probe) over 45 discriminating version spellings must equal the scheme's ecosystem's own Compare and must be an error iff that ecosystem rejects a version; the run also proves that for every other ecosystem at least one pair distinguishes it (internal error otherwise). 28 near-miss scheme names must be rejected. distinct_nontrivial = cases with a definite expectation.",
+		Rule:        "validation: for 3 (quick) / 9 (thorough) valid seed ranges per scheme, EVERY single-point corruption - delete at each position, replace by and insert each character of {a z A 0 9 : / | * = < > ! . - SP TAB NUL e-acute ~ DEL 0x1f 0x80} at each position - plus scheme case changes, operator manglings and prefix damage, each with 4 probes; a reference classifier (Appendix A.9) decides which results must be (false, error). routing: for each scheme every (comparator, bound, probe) over 45 discriminating version spellings must equal the scheme's ecosystem's own Compare and must be an error iff that ecosystem rejects a version; the run also proves that for every other ecosystem at least one pair distinguishes it (internal error otherwise). 28 near-miss scheme names must be rejected. distinct_nontrivial = cases with a definite expectation.",
 		Assumptions: []string{"version validity in rule 9 of the classifier is the scheme's ecosystem parser itself (C17 states it that way)", "the lone '*' range is not covered, as stated"},
 	})
 }
